@@ -230,7 +230,7 @@ class World(sp.Obs):
         b = self.batches[bid]
         b["cb_end"] = len(self.events)
         c = b["call"]
-        if c is not None and c < len(self.calls) and self.calls[c].get("failed_at") is None:
+        if isinstance(c, int) and c < len(self.calls) and self.calls[c].get("failed_at") is None:
             if any(i in b["items"] for (i, _t, _tag) in self.raised.get(c, ())):
                 # the failure has been handed to joblib and its callback has returned
                 self.calls[c]["failed_at"] = len(self.events)
